@@ -98,6 +98,17 @@ def ledger_obligations(ctx, r, rule, comps, only=None, kinds=('return', 'unwind'
             ctx.ob(rule, 'no loop changes the books by a non-zero amount per iteration', False, ctx.where(b, line), msg, construct='ledger-drift:' + b.name)
         else:
             ctx.undecide(rule, 'ledger: %s at %s' % (msg, ctx.where(b, line)))
+    # positive control (expected count of violations is zero, so the engine has to show on every run that it can see one):
+    # the same analysis made blind to `permit.forget()` must find the getter's books unbalanced
+    if not getattr(L, 'control_done', False):
+        C = Ledger(ctx.prog, r)
+        C.blind = 'forget'
+        C.summary(r.TIMEOUT_GET)
+        ex, _ = C.results[r.TIMEOUT_GET.path]
+        L.control_ok = any(e.kind == 'return' and e.vec[0] != 0 for e in ex)
+        L.control_done = True
+    ctx.ob(rule, 'positive control: with permit.forget() hidden from the model the getter does not balance', L.control_ok, ctx.where(r.TIMEOUT_GET),
+           'the ledger engine did not notice a missing event: its verdicts are void' if not L.control_ok else '', construct='ledger-positive-control')
     ctx.count('ledger_states', L.n_states)
     ctx.count('ledger_events', L.n_events)
     ctx.count('ledger_user_unwind_edges', L.n_user_unwinds)
@@ -162,6 +173,15 @@ def uledger_obligations(ctx, r, rule):
             ctx.ob(rule, 'no loop changes the books by a non-zero amount per iteration', False, ctx.where(b, line), msg, construct='uledger-drift:' + b.name)
         else:
             ctx.undecide(rule, 'ledger: %s at %s' % (msg, ctx.where(b, line)))
+    if not getattr(L, 'control_done', False):
+        C = UnmanagedLedger(prog, r)
+        C.blind = 'push'
+        C.summary(r.OBJ_DROP)
+        ex, _ = C.results[r.OBJ_DROP.path]
+        L.control_ok = any(e.kind == 'return' and e.vec != C.ZERO and not any(f in e.flags for f in C.IGNORE_FLAGS) for e in ex)
+        L.control_done = True
+    ctx.ob(rule, 'positive control: with queue.push hidden from the model the return path does not balance', L.control_ok, ctx.where(r.OBJ_DROP),
+           'the ledger engine did not notice a missing event: its verdicts are void' if not L.control_ok else '', construct='uledger-positive-control')
     ctx.count('uledger_states', L.n_states)
     ctx.count('uledger_events', L.n_events)
     ctx.count('uledger_cancel_edges', L.n_cancel_edges)
